@@ -1819,4 +1819,168 @@ example : (seens (run (fun _ => true) exCo exAcceptedT exSteps).2).map (fun s =>
 example : ((acceptOver (fun _ => true) exCo ⟨some (List.replicate 100 7), some (List.replicate 50 8), some [1, 2, 3]⟩ exAccepted).1.disk.map
     fun d => (d.hdrFile == writeHeader exAccepted.hdr, d.bodyFile == exAccepted.body)) = some (true, true) := by decide
 
+/-! ## Several queue blocks, several messages, a restart, a process that dies while storing (`C10 fleet`) -/
+section Fleet
+open MaddyVerif.SpoolFleet
+
+/-- What the configuration loader guarantees: no two blocks carry the same instance name. -/
+def NamesDistinct (bs : List Block) : Prop :=
+  ∀ (i j : Nat) (b b' : Block), bs[i]? = some b → bs[j]? = some b' → b.name = b'.name → i = j
+
+/-- With distinct instance names no two blocks keep their files in the same place - whether they name a
+location of their own or rely on the default one (`<state dir>/<instance name>`). -/
+theorem C10_fleet_dirs_distinct (bs : List Block) (h : NamesDistinct bs) :
+    ∀ i j, dirOf bs i = dirOf bs j → i = j := by
+  intro i j hd
+  unfold dirOf at hd
+  cases hi : bs[i]? with
+  | none =>
+    cases hj : bs[j]? with
+    | none => simpa [hi, hj] using hd
+    | some b' =>
+      rw [hi, hj] at hd
+      by_cases hl : b'.loc = Loc.dflt
+      · simp [hl] at hd
+      · simpa [hl] using hd
+  | some b =>
+    cases hj : bs[j]? with
+    | none =>
+      rw [hi, hj] at hd
+      by_cases hl : b.loc = Loc.dflt
+      · simp [hl] at hd
+      · simpa [hl] using hd
+    | some b' =>
+      rw [hi, hj] at hd
+      by_cases hl : b.loc = Loc.dflt <;> by_cases hl' : b'.loc = Loc.dflt
+      · simp [hl, hl'] at hd
+        exact h i j b b' hi hj hd
+      · simp [hl, hl'] at hd
+      · simp [hl, hl'] at hd
+      · simpa [hl, hl'] using hd
+
+/-- After a restart a block hands its next hop only entries IT stored: nothing another block accepted. -/
+theorem C10_fleet_restart_hands_own_messages_only (bs : List Block) (h : NamesDistinct bs)
+    (spool : List Entry) (k : Nat) :
+    ∀ e ∈ handedAfterRestart bs spool k, e.q = k := by
+  intro e he
+  unfold handedAfterRestart at he
+  have := (List.mem_filter.mp he).2
+  exact C10_fleet_dirs_distinct bs h _ _ (of_decide_eq_true this)
+
+/-- ... and every entry it stored and still has in the spool. -/
+theorem C10_fleet_restart_hands_every_pending_message (bs : List Block) (spool : List Entry) :
+    ∀ e ∈ spool, e ∈ handedAfterRestart bs spool e.q := by
+  intro e he
+  unfold handedAfterRestart
+  exact List.mem_filter.mpr ⟨he, by simp⟩
+
+/-- A process that dies while a message is being stored leaves nothing of THAT message for the next start
+to load (its `<id>.meta` is written last), and - with distinct names - only entries of the same block. -/
+theorem C10_fleet_crash_while_storing_leaves_no_entry (bs : List Block) (spool : List Entry) (m : Msg) :
+    ∀ e ∈ leftBy bs spool m, e.tag ≠ m.tag := by
+  intro e he
+  unfold leftBy at he
+  have := (List.mem_filter.mp he).2
+  simp at this
+  exact this.2
+
+theorem C10_fleet_crash_leaves_own_entries_only (bs : List Block) (h : NamesDistinct bs) (spool : List Entry) (m : Msg) :
+    ∀ e ∈ leftBy bs spool m, e.q = m.q ∧ e ∈ spool := by
+  intro e he
+  unfold leftBy at he
+  have hm := List.mem_filter.mp he
+  have := hm.2
+  simp at this
+  exact ⟨C10_fleet_dirs_distinct bs h _ _ this.1, hm.1⟩
+
+/-- an entry is what its block was given: index, block, ID and the next hop's answer of a submitted message -/
+def EntryOf (ims : List (Nat × Msg)) (e : Entry) : Prop :=
+  ∃ m, (e.idx, m) ∈ ims ∧ m.q = e.q ∧ m.tag = e.tag ∧ m.fate = e.fate
+
+theorem submit_spool_inv (bs : List Block) (ims : List (Nat × Msg)) (st : Phase1) (im : Nat × Msg)
+    (him : im ∈ ims) (hs : ∀ e ∈ st.spool, EntryOf ims e) (hl : ∀ p ∈ st.leftBehind, ∀ e ∈ p.2, EntryOf ims e) :
+    (∀ e ∈ (submit bs st im).spool, EntryOf ims e) ∧
+    (∀ p ∈ (submit bs st im).leftBehind, ∀ e ∈ p.2, EntryOf ims e) := by
+  obtain ⟨i, m⟩ := im
+  constructor
+  · intro e he
+    simp only [submit] at he
+    split at he
+    · exact hs e (List.mem_filter.mp he).1
+    · rcases List.mem_append.mp he with h1 | h1
+      · exact hs e (List.mem_filter.mp h1).1
+      · simp at h1
+        subst h1
+        exact ⟨m, him, rfl, rfl, rfl⟩
+  · intro p hp e he
+    simp only [submit] at hp
+    split at hp
+    · rcases List.mem_append.mp hp with h1 | h1
+      · exact hl p h1 e he
+      · simp at h1
+        subst h1
+        exact hs e (List.mem_filter.mp he).1
+    · exact hl p hp e he
+
+theorem foldl_submit_inv (bs : List Block) (ims : List (Nat × Msg)) :
+    ∀ (l : List (Nat × Msg)) (st : Phase1), (∀ im ∈ l, im ∈ ims) →
+      (∀ e ∈ st.spool, EntryOf ims e) → (∀ p ∈ st.leftBehind, ∀ e ∈ p.2, EntryOf ims e) →
+      (∀ e ∈ (l.foldl (submit bs) st).spool, EntryOf ims e) ∧
+      (∀ p ∈ (l.foldl (submit bs) st).leftBehind, ∀ e ∈ p.2, EntryOf ims e) := by
+  intro l
+  induction l with
+  | nil => intro st _ hs hl; exact ⟨hs, hl⟩
+  | cons im rest ih =>
+    intro st hsub hs hl
+    have h1 := submit_spool_inv bs ims st im (hsub im (List.mem_cons_self ..)) hs hl
+    exact ih (submit bs st im) (fun x hx => hsub x (List.mem_cons_of_mem _ hx)) h1.1 h1.2
+
+/-- Whatever lies in any block's spool after any sequence of submissions - and whatever a process that died
+in the middle of one left behind - is an entry for a message that WAS submitted, filed under the block that
+was given it, with its ID.  Together with `C10_fleet_restart_hands_own_messages_only`: after the restart (resp. the
+crash) a block's next hop is handed only messages that block accepted, for any number of blocks and messages,
+any load (`max_parallelism`, hanging next hops) and any crash points. -/
+theorem C10_fleet_spool_holds_accepted_messages_only (bs : List Block) (ms : List Msg) :
+    (∀ e ∈ (phase1 bs ms).spool, EntryOf ((List.range ms.length).zip ms) e) ∧
+    (∀ p ∈ (phase1 bs ms).leftBehind, ∀ e ∈ p.2, EntryOf ((List.range ms.length).zip ms) e) := by
+  unfold phase1
+  exact foldl_submit_inv bs _ _ {} (fun _ h => h) (by intro e he; cases he) (by intro p hp; cases hp)
+
+theorem C10_fleet_handed_after_restart_was_accepted_by_the_block (bs : List Block) (h : NamesDistinct bs)
+    (ms : List Msg) (k : Nat) :
+    ∀ e ∈ handedAfterRestart bs (atRest (phase1 bs ms)) k,
+      ∃ m, (e.idx, m) ∈ (List.range ms.length).zip ms ∧ m.q = k ∧ m.tag = e.tag := by
+  intro e he
+  have hq := C10_fleet_restart_hands_own_messages_only bs h _ k e he
+  have hmem : e ∈ (phase1 bs ms).spool := by
+    unfold handedAfterRestart atRest at he
+    exact (List.mem_filter.mp (List.mem_filter.mp he).1).1
+  obtain ⟨m, hm, h1, h2, _⟩ := (C10_fleet_spool_holds_accepted_messages_only bs ms).1 e hmem
+  exact ⟨m, hm, h1.trans hq, h2⟩
+
+/-- two blocks at the default place, a third with a directory of its own -/
+def exBlocks : List Block := [⟨[108], .dflt, 1⟩, ⟨[114], .dflt, 2⟩, ⟨[111], .inline, 1⟩]
+
+example : NamesDistinct exBlocks := by
+  unfold NamesDistinct
+  intro i j b b' hi hj hn
+  match i, j with
+  | 0, 0 | 1, 1 | 2, 2 => rfl
+  | 0, 1 | 0, 2 | 1, 0 | 1, 2 | 2, 0 | 2, 1 => simp [exBlocks] at hi hj; subst hi hj; simp at hn
+  | i + 3, _ => simp [exBlocks] at hi
+  | 0, j + 3 | 1, j + 3 | 2, j + 3 => simp [exBlocks] at hj
+
+def exMsgs : List Msg := [⟨0, 0, .hangs, false⟩, ⟨0, 1, .deferred, false⟩, ⟨1, 1, .deferred, false⟩, ⟨0, 2, .taken, true⟩]
+
+example : (handedAfterRestart exBlocks (atRest (phase1 exBlocks exMsgs)) 0).map (·.idx) = [1] ∧
+    (handedAfterRestart exBlocks (atRest (phase1 exBlocks exMsgs)) 1).map (·.idx) = [2] ∧
+    (phase1 exBlocks exMsgs).leftBehind.map (fun p => (p.1, p.2.map (·.idx))) = [(3, [0, 1])] := by decide
+
+/-- Why the instance name matters: were the default place the same for every block (e.g. named after the
+module), the first block would hand ITS next hop what the second one accepted. -/
+example : (handedAfterRestart [⟨[113], .dflt, 1⟩, ⟨[113], .dflt, 1⟩]
+    [⟨0, 0, 0, .deferred⟩, ⟨1, 1, 1, .deferred⟩] 0).map (·.q) = [0, 1] := by decide
+
+end Fleet
+
 end MaddyVerif.C10
